@@ -66,7 +66,7 @@ DESTRUCTION = {
     ('utils:ObjectWriter.__exit__', 'REPLACE', 'sandbox->loose'): 'publish over a corrupt copy (checksum mismatch verified, C09.R1)',
     ('utils:ObjectWriter.__exit__', 'RENAME', 'sandbox->duplicates'): 'Windows: keep a duplicate instead of overwriting an open file (through _store_duplicate_copy)',
 }
-DESTRUCTIVE = ('UNLINK', 'RENAME', 'REPLACE', 'LINK', 'RMTREE', 'RMDIR', 'DB_DELETE', 'DB_UPDATE', 'H_TRUNCATE', 'TRUNCATE_PATH', 'MOVE', 'COPY',
+DESTRUCTIVE = ('SUBPROCESS', 'UNLINK', 'RENAME', 'REPLACE', 'LINK', 'RMTREE', 'RMDIR', 'DB_DELETE', 'DB_UPDATE', 'H_TRUNCATE', 'TRUNCATE_PATH', 'MOVE', 'COPY',
                'WRITE_PATH', 'TOUCH', 'FS_OTHER', 'DB_OTHER')
 
 
@@ -744,6 +744,10 @@ def run(ctx):
                 lab = site_label(K, prog, e)
                 if f.module.name.endswith('backup_utils'):
                     # backup works on the destination through rsync/ssh; its local effects are checked by C15
+                    continue
+                if e[0] == 'SUBPROCESS':
+                    chk.bad(R4, f.qualname, f'external command: {norm(n)[:100]}', 'an external command is run from the object-store code (outside backup_utils): what it does to the container cannot be classified, '
+                            'so it counts as an untabled destructive site', where=f'{f.module.relpath}:{n.lineno}')
                     continue
                 nsites += 1
                 key = (f.qualname, e[0], lab)
